@@ -449,6 +449,7 @@ let op_set (args : sx) : string =
   | _ -> raise (Bad "set")
 let classify_set (args : sx) (real : string) (_ : string) : string =
   if real = "(panic)" then "panic"
+  else if String.length real > 14 && String.sub real 0 14 = "(env-invariant" then "sharing"
   else match args, (try Some (parse_sx real) with Bad _ -> None) with
     | L [_; L ops], Some (L [A "ok"; L ans; _; _]) ->
         let reference = show_answers (set_ref (List.map sop_of ops)) in
@@ -479,6 +480,7 @@ let op_setw (args : sx) : string =
   | _ -> raise (Bad "setw")
 let classify_setw (args : sx) (real : string) (_ : string) : string =
   if real = "(panic)" then "panic"
+  else if String.length real > 14 && String.sub real 0 14 = "(env-invariant" then "sharing"
   else match args, (try Some (parse_sx real) with Bad _ -> None) with
     | L [_; L ops], Some (L [A "ok"; L ans; _; _]) ->
         let reference = show_answers (set_refN (List.map sopn_of ops)) in
@@ -505,6 +507,7 @@ let op_set2 (args : sx) : string =
   | _ -> raise (Bad "set2")
 let classify_set2 (args : sx) (real : string) (_ : string) : string =
   if real = "(panic)" then "panic"
+  else if String.length real > 14 && String.sub real 0 14 = "(env-invariant" then "sharing"
   else match args, (try Some (parse_sx real) with Bad _ -> None) with
     | L [_; L ops], Some (L [A "ok"; L ans; _; _]) ->
         let (o0, o1) = set2_split ops in
